@@ -59,8 +59,8 @@ var propertyCanaries = map[string][]string{
 	"C01": {"STRIDE.stepbound", "STRIDE.flatfill", "ALPHA.noread", "STRIDE.fullrange", "STRIDE.unitidx", "FLAG.unitdiag", "BETA.noread", "BETA.quickret", "BETA.scaleguard", "FLAG.neginc", "STRIDE.index", "STRIDE.len", "STRIDE.start", "STRIDE.rowoffset", "STRIDE.extent", "FLAG.trans", "TWIN.generated", "ASM.units", "ASM.lost"},
 	"C02": {"STRIDE.argmaxbase", "WORK.init", "FLAG.cholorder", "ARGS.callee", "FLAG.unset", "FLAG.unitdiag", "WORKSIZE.fallback", "OKFLOW.loopstatus", "FACTKIND.pair", "ARGS.order", "ARGS.lencheck", "ARGS.query", "LOOPIDX.unused", "OKFLOW.report", "STRIDE.vecinc", "WORKSIZE.min", "WORKSIZE.querylen"},
 	"C03": {"LOOPFLAG.stale", "WORK.init", "FLAG.cholorder", "ARGS.callee", "FLAG.unset", "FLAG.unitdiag", "WORKSIZE.fallback", "GUARD.operand", "FLAG.uplomap", "STRIDE.veclda", "FACTKIND.pair", "LOOPIDX.origin", "ARGS.order", "ARGS.lencheck", "ARGS.query", "LOOPIDX.unused", "OKFLOW.report", "STRIDE.workld", "STRIDE.worknext", "WORKSIZE.min"},
-	"C04": {"STRIDE.stepbound", "BAND.rowcol", "MAT.access", "MAT.selfguard", "ZEROED.paths", "SWAP.cond", "STRIDE.contig", "TWIN.bounds", "NILRECV"},
-	"C05": {"MAT.doublepass", "OVERLAP.lattice", "MAT.guardorder", "FACT.alias", "OVERLAP.extent", "OVERLAP.guard", "MODSET.mat", "OVERLAP.symmetric", "TWIN.shadow"},
+	"C04": {"USE.empty", "STRIDE.stepbound", "BAND.rowcol", "MAT.access", "MAT.selfguard", "ZEROED.paths", "SWAP.cond", "STRIDE.contig", "TWIN.bounds", "NILRECV"},
+	"C05": {"USE.empty", "MAT.doublepass", "OVERLAP.lattice", "MAT.guardorder", "FACT.alias", "OVERLAP.extent", "OVERLAP.guard", "MODSET.mat", "OVERLAP.symmetric", "TWIN.shadow"},
 	"C06": {"FACT.alias", "FACT.failstate", "INIT.state", "ERR.overwrite", "ERR.swallow", "FACT.deadloop", "FACT.reuse", "FLAG.unset", "OKFLOW.condpath", "FACT.condafter", "FACTKIND.pair", "OKFLOW.use", "OKFLOW.cond", "OKFLOW.report", "FACT.normorder", "FACT.state", "FACT.condunit", "NILRECV"},
 	"C07": {"MAT.access", "ARGS.callee", "ARGS.ldcols", "ARGS.workquery", "ARGS.condlen", "ARGS.arms", "ARGS.strict", "ARGS.fullrow", "WORKSIZE.querylen", "ARGS.order", "ARGS.lencheck", "ARGS.query", "MAT.order", "ASM.window", "ASM.tail", "STRIDE.len"},
 	"C08": {"STRIDE.fullrange", "BETA.scaleguard", "CONSTFOLD.underflow", "ASM.lost", "PARAMUSE.read", "ASM.window", "ASM.tail", "ASM.units", "STRIDE.extent", "SIB.guards"},
@@ -120,6 +120,7 @@ func init() {
 		{"LOOPFLAG.stale", "lapack/gonum/dsteqr.go", "\t\tvar iscale scaletype\n\x00\tfor {\n\t\tif l1 > n-1 {", "\x00\tvar iscale scaletype\n\tfor {\n\t\tif l1 > n-1 {", func() *core.Result { return loopidx.RunStaleFlag(def, core.Pkgs("./lapack/gonum")) }},
 		{"STATUS.dropped", "optimize/local.go", "\tif status != NotTerminated {\n\t\t// The starting location already satisfies the gradient threshold.\n\t\tl.finishMethodDone(operation, result, task)\n\t\treturn status, nil\n\t}\n", "", func() *core.Result { return errx.RunStatusDropped(def, core.Pkgs("./optimize")) }},
 		{"CALLBACK.owncopy", "diff/fd/gradient.go", "\t\tcopy(xcopy, x)\n\t\toriginValue = f(xcopy)", "\t\tcopy(xcopy, x)\n\t\toriginValue = f(x)", func() *core.Result { return settingsx.RunCallbackCopy(def, core.Pkgs("./diff/fd")) }},
+		{"USE.empty", "mat/vector.go", "\tif v.IsEmpty() || (v.mat.Inc == 1 && n <= v.mat.N) {\n", "\tif v.IsEmpty() || n <= v.mat.N {\n", func() *core.Result { return zeroed.RunUseEmpty(def) }},
 		{"ARGS.workquery", "lapack/gonum/dgeqrf.go", "case len(work) < max(1, lwork):", "case len(work) < lwork:", func() *core.Result { return flagx.RunWorkQuery(def, core.Pkgs("./lapack/gonum")) }},
 		{"ARGS.callee", "lapack/gonum/dsytrd.go", "case len(d) < n:", "case len(d) < n-1:", func() *core.Result { return worksize.RunCallee(def, core.Pkgs("./lapack/gonum")) }},
 		{"GRAPHINV.together", "graph/simple/weighted_undirected.go", "\tif fm, ok := g.edges[fid]; ok {\n\t\tfm[tid] = e\n\t} else {", "\tif fm, ok := g.edges[fid]; ok {\n\t\t_, exists := fm[tid]\n\t\tfm[tid] = e\n\t\tif exists {\n\t\t\treturn\n\t\t}\n\t} else {", func() *core.Result { return graphinv.Run(def) }},
